@@ -33,7 +33,7 @@ CHECKS["C01"] = cfg(
     "C01",
     technique="runtime monitoring: recording JwsVerifier + own JWS assembler; oracle over the verifier call log, reference re-verification with the crypto crates, single-bit mutation of verified tokens",
     level_text="Tokens in all three serializations (and compact through CoreDocument::verify_jws) are assembled by the harness from raw header text, so P, Y and S are known; every token the library reports verified is checked against the recording verifier's log (signing input == ASCII(P)||'.'||Y, alg from the protected header, caller's key, decoded signature, delegate verdict honoured, key alg pin, claims) and re-verified with ed25519/p256/k256 directly; then every single bit of P, Y and S of verified tokens is flipped and must stop verifying.",
-    min={"quick": {"verified": 800, "bitflips": 50000, "verified:Compact": 100, "verified:Flattened": 100, "verified:General": 100, "verified:Document": 60, "nontrivial": 100},
+    min={"quick": {"decorations": 20000, "decorated_tokens": 100, "decorations:ends": 200, "decorations:protected": 5000, "decorations:signature": 5000, "verified": 800, "bitflips": 50000, "verified:Compact": 100, "verified:Flattened": 100, "verified:General": 100, "verified:Document": 60, "nontrivial": 100},
          "thorough": {"verified": 10000, "bitflips": 500000, "nontrivial": 300}},
     thorough=[{"flavour": "checked", "shards": 16, "timeout": 3000},
               {"flavour": "asan", "tier": "quick", "shards": 8, "timeout": 3000, "args": {"scale": 1000}}],
@@ -45,7 +45,7 @@ CHECKS["C08"] = cfg(
     "C08",
     technique="runtime monitoring: produce tokens with the real encoders / create_jws, dissect them with own base64url + signing-input formula, decode and verify with the library, negative verification matrix",
     level_text="Generated legal header sets x payload classes x b64 x detached x charset x 1-4 recipients go through the three encoders; every produced token is decoded by the library's decoder and compared (claims, both headers, signing input, signature) with what was given, against the harness's own formula, and verified with the real verifiers. create_jws on CoreDocument/IotaDocument is driven over every JwsSignatureOptions field; each token must verify for its method (every containing scope, kid or method id) and must fail for every other method, wrong/absent nonce and every excluding scope.",
-    min={"quick": {"produced": 4000, "produced:compact": 800, "produced:flattened": 800, "produced:general": 800, "produced:create_jws": 500,
+    min={"quick": {"produced:bridge": 400, "verified:bridge:no-kid": 250, "verified:bridge:json": 250, "documents_with_dangling_references": 20, "produced": 4000, "produced:compact": 800, "produced:flattened": 800, "produced:general": 800, "produced:create_jws": 500,
                    "verified": 5000, "negative_verifications": 5000, "nontrivial": 400},
          "thorough": {"produced": 100000, "verified": 100000, "negative_verifications": 100000, "nontrivial": 1000}},
     thorough=[{"flavour": "checked", "shards": 16, "timeout": 3000},
@@ -71,7 +71,7 @@ CHECKS["C07"] = cfg(
     "C07",
     technique="runtime monitoring: generated credentials/presentations -> serialize_jwt -> claims-shape oracle -> back-conversion through the validators (always-Ok verifier) compared with the original; enumerated tampered claim sets",
     level_text="Credentials and presentations generated over every optional field are converted to JWT claims by the library; the claims are checked for the registered claims carried exactly once and for vc/vp not repeating them, then converted back through the only public path (validators with an always-Ok verifier) and compared for equality. All 20736 tampering vectors (each duplicated member absent/equal/different x registered claim present/absent x iat/nbf forms) plus numeric dates at the range ends are fed to the same path: disagreeing duplicates and out-of-range dates must be rejected.",
-    min={"quick": {"credentials_serialized": 3000, "credential_backconversions": 2000, "presentation_backconversions": 800,
+    min={"quick": {"raw_dup_cases": 800, "raw_dup_rejected": 600, "raw_control_accepted": 200, "numeric_spelling_cases": 1500, "numeric_spelling_rejected": 1500, "credentials_serialized": 3000, "credential_backconversions": 2000, "presentation_backconversions": 800,
                    "tampered_accepted": 100, "tampered_rejected": 3000, "nontrivial": 1000},
          "thorough": {"credentials_serialized": 100000, "credential_backconversions": 80000, "tampered_rejected": 20000, "nontrivial": 5000}},
     assumptions=["a duplicated vc member whose registered claim is absent may be rejected or accepted (latitude)",
@@ -84,7 +84,7 @@ CHECKS["C02"] = cfg(
     "C02",
     technique="runtime monitoring: decision-table oracle over harness-constructed scenarios (own keys, own JWT assembler); accept <=> all conditions; errors must identify falsified conditions",
     level_text="Every scenario is built by the harness so that the truth of each of the 12 conditions (signature, kid/method-id lookup, scope, kid DID vs document, issuer vs method DID, nonce, issuance/expiry bounds at +-1 s, structure, subject-holder mode, status form x mode) is known by construction. validate() must accept exactly when all hold; with AllErrors the reported concerns must equal the falsified credential-side conditions, with FirstError be one of them; signature-side failures must be identified by a matching error family; on acceptance the returned credential, header and custom claims must be those signed. Includes the exhaustive 2^5 credential-side table and verify_signature over two trusted issuers.",
-    min={"quick": {"accepted": 800, "rejected:credential-side": 800, "rejected:signature-side": 800, "u_table_rows": 200, "distinct:condition_vectors": 150},
+    min={"quick": {"issuer_table_rows": 40, "service_list_table_rows": 70, "sole_false_issuer_did_method_name": 15, "status_with_same_fragment_services": 600, "wall_clock_accepted": 10, "wall_clock_rejected": 60, "accepted": 800, "rejected:credential-side": 800, "rejected:signature-side": 800, "u_table_rows": 200, "distinct:condition_vectors": 150},
          "thorough": {"accepted": 200000, "rejected:credential-side": 200000, "rejected:signature-side": 200000, "distinct:condition_vectors": 250}},
     assumptions=["validation bounds are always explicit (no wall clock)",
                  "signature-side error families are matched loosely (any family belonging to a falsified condition)"],
@@ -127,7 +127,7 @@ CHECKS["C03"] = cfg(
     "C03",
     technique="runtime monitoring: decision-table oracle over harness-constructed presentation tokens (own keys, own JWT assembler); accept <=> all conditions",
     level_text="Presentation tokens are built by the harness against a holder document with a general-purpose, an embedded and a foreign-DID method; each of the 10 conditions (signature, kid/method-id resolution as full id/'#fragment'/bare fragment, scope, nonce, iss == document id, expiry and issuance bounds at +-1 s with nbf-else-iat, vp.id/vp.holder consistency, numeric dates in range) is true or false by construction. validate() must accept exactly when all hold, and on acceptance return the presentation, aud, dates, custom claims and header that were signed.",
-    min={"quick": {"accepted": 600, "rejected": 1500, "rejected:signature": 150, "rejected:iss-equals-holder-document": 150, "rejected:scope": 80,
+    min={"quick": {"dangling_reference_probes": 200, "fractional_date_probes": 40, "fractional_date_cases": 200, "accepted": 600, "rejected": 1500, "rejected:signature": 150, "rejected:iss-equals-holder-document": 150, "rejected:scope": 80,
                    "rejected:vp.id-consistent": 100, "rejected:numeric-date-in-range": 100, "distinct:condition_vectors": 60},
          "thorough": {"accepted": 200000, "rejected": 500000, "distinct:condition_vectors": 120}},
     assumptions=["validation bounds are always explicit (no wall clock)",
